@@ -127,9 +127,15 @@ class Result:
         self.harness_crash = None
 
 
-def run_reader_families(res, fams, seed, oracle_fn, keep_growth=False, exact=True, extra_cases=None, post=None):
-    """Generate, execute on impl and model, compare. oracle_fn(case, toks, log, items) -> Verdict or None."""
+def run_reader_families(res, fams, seed, oracle_fn, keep_growth=False, exact=True, extra_cases=None, post=None, deadline=None):
+    """Generate, execute on impl and model, compare. oracle_fn(case, toks, log, items) -> Verdict or None.
+    `deadline` (failing-input search only): families not started by then are skipped and the fact is noted."""
     for fam, size in fams:
+        if deadline is not None and time.time() > deadline:
+            res.notes.append('search budget exhausted before family %s' % fam)
+            break
+        if deadline is not None and res.oracle_failures:
+            break
         cases = run.gen_cases(fam, size, seed)
         _run_cases(res, fam, cases, oracle_fn, keep_growth, exact, post)
     if extra_cases:
